@@ -209,7 +209,7 @@ func (e renameCallParamEdit) apply(call *syntax.CallStm) int {
 				b, ok := call.Bindings.Table[e.OldParam]
 				if ok {
 					delete(call.Bindings.Table, e.OldParam)
-					call.Bindings.Table[e.OldParam] = b
+					call.Bindings.Table[e.NewParam] = b
 				}
 			}
 			return 1
